@@ -834,7 +834,7 @@ def cases(ctx):
         n_rand += 1
     n_prod = 0
     if ctx.thorough:                                              # full product over the top-level flags of the statement
-        short = {a: [w for w in wins[a] if w[0] in ("at-start", "inside", "after")] for a in archs}
+        short = {a: [w for w in wins[a] if w[0] == "inside"] for a in archs}      # other windows: random rows above
         root_fields = {k[1:] for k in ROOT_FLAGS}
         free = [k for k in NODE_FLAGS if k.split(":")[1] not in root_fields]
         for bits in range(1 << len(ROOT_FLAGS)):
